@@ -20,3 +20,18 @@ pub open spec fn c06_post(s: Seq<u8>, r: crate::HeaderResult) -> bool {
     if v2_class(s) == 2 { r matches crate::HeaderResult::V1(x) && v1_bytes_post(s, x) }
     else { r matches crate::HeaderResult::V2(y) && v2_all_post(s, y) }
 }
+
+/// [C06] the statement itself: accepted exactly when one of the two parsers accepts (a v1 line starts with `P`, a v2
+/// header with CR: never both), that parser's header returned unchanged under its version tag; incomplete exactly
+/// when v2 is incomplete, or v2 fails terminally and v1 is incomplete; otherwise a terminal error (of either parser:
+/// WHICH error is reported when both fail terminally is not pinned); a possible v2 header is never handed to the text parser
+pub open spec fn c06_statement(s: Seq<u8>, r: crate::HeaderResult) -> bool {
+    let racc = match r { crate::HeaderResult::V1(x) => x is Ok, crate::HeaderResult::V2(y) => y is Ok };
+    let rinc = match r { crate::HeaderResult::V1(x) => v1_bin_res_incomplete(x), crate::HeaderResult::V2(y) => v2_res_incomplete(y) };
+    let v1acc = entry_verdict_bytes(s) matches V1BV::Line(V1V::Accept(_));
+    &&& (v2_class(s) == 0 ==> (r matches crate::HeaderResult::V2(y) && y is Ok && c02_post(s, y)))
+    &&& (v2_class(s) == 2 && v1acc ==> (r matches crate::HeaderResult::V1(x) && x is Ok && bin_realises(v1_window(s), x, entry_verdict_bytes(s))))
+    &&& (racc ==> v2_class(s) == 0 || (v2_class(s) == 2 && v1acc))
+    &&& (rinc <==> (v2_class(s) == 1 || (v2_class(s) == 2 && v1bv_incomplete(entry_verdict_bytes(s)))))
+    &&& (v2_class(s) == 1 ==> r is V2)
+}
